@@ -44,6 +44,10 @@ pub enum OpKind {
   MaterializeRoundTrip,
   Tap,
   MapToAny,
+  ObserveOnDefault,
+  SubscribeOnDefault,
+  Timestamp,
+  Delay,
 }
 
 pub const ALL_OPS: &[OpKind] = &[
@@ -79,6 +83,10 @@ pub const ALL_OPS: &[OpKind] = &[
   OpKind::MaterializeRoundTrip,
   OpKind::Tap,
   OpKind::MapToAny,
+  OpKind::ObserveOnDefault,
+  OpKind::SubscribeOnDefault,
+  OpKind::Timestamp,
+  OpKind::Delay,
 ];
 
 impl OpKind {
@@ -116,6 +124,10 @@ impl OpKind {
       OpKind::MaterializeRoundTrip => "materialize_dematerialize",
       OpKind::Tap => "tap",
       OpKind::MapToAny => "map_to_any",
+      OpKind::ObserveOnDefault => "observe_on_default",
+      OpKind::SubscribeOnDefault => "subscribe_on_default",
+      OpKind::Timestamp => "timestamp",
+      OpKind::Delay => "delay",
     }
   }
   pub fn from_name(s: &str) -> Option<OpKind> {
@@ -682,6 +694,24 @@ pub fn instantiate(kind: OpKind, pfx: &str) -> OpInst {
           None => Sym::konst(-1).with_tag(9),
         })
       }),
+      Box::new(move |s: RStream| s),
+    ),
+    // scheduler operators over the synchronous default scheduler, and the time-stamping /
+    // delaying operators under the virtual clock: all are the identity on the event sequence
+    OpKind::ObserveOnDefault => (
+      Box::new(move |o: Obs| o.observe_on(schedulers::default_scheduler())),
+      Box::new(move |s: RStream| s),
+    ),
+    OpKind::SubscribeOnDefault => (
+      Box::new(move |o: Obs| o.subscribe_on(schedulers::default_scheduler())),
+      Box::new(move |s: RStream| s),
+    ),
+    OpKind::Timestamp => (
+      Box::new(move |o: Obs| o.timestamp().map(|(_t, x): (std::time::SystemTime, Sym)| x)),
+      Box::new(move |s: RStream| s),
+    ),
+    OpKind::Delay => (
+      Box::new(move |o: Obs| o.delay(std::time::Duration::from_millis(1))),
       Box::new(move |s: RStream| s),
     ),
   };
